@@ -152,6 +152,37 @@ fn consequence_probe(r: &mut Runner, u: i64) {
         for &kk in &keys { r.step(&Op::new("get", &[kk]), None); }
         if r.dead { return; }
     }
+    // exhaust the arena: a slot that is wrongly on the free list (the sentinel, a slot still in use) may sit
+    // at the bottom of the stack and is then handed out last. Afterwards remove the entries one by one,
+    // looking every remaining one up (and, for sets, stepping to the neighbours) after each removal.
+    let (buf_len, stored) = match r.real.abs() { Some(Ok(a)) => (a.buf_len, a.inorder.len()), _ => return };
+    if buf_len > 40 { return; }
+    let mut fresh: Vec<i64> = vec![];
+    let mut k = b + 10;
+    for i in 0..(buf_len + 2).saturating_sub(stored) {
+        r.step(&Op::new("insert", &[k, 2000 + i as i64]), None);
+        fresh.push(k); k += 1;
+        if r.dead { return; }
+    }
+    let is_set = r.coll == "set";
+    let mut all: Vec<i64> = r.refm.m.keys().cloned().collect();
+    let order: Vec<i64> = all.clone();
+    for &d in order.iter() {
+        r.step(&Op::new("delete", &[d]), None);
+        all.retain(|&x| x != d);
+        for &kk in all.iter() {
+            r.step(&Op::new("get", &[kk]), None);
+            if is_set {
+                let o = r.step(&Op::new("fil", &[kk]), None);
+                if let Ok(h) = o.parse::<i64>() {
+                    r.step(&Op::new("after", &[h]), Some(kk));
+                    r.step(&Op::new("before", &[h]), Some(kk));
+                }
+            }
+            if r.dead { return; }
+        }
+        if r.dead { return; }
+    }
 }
 
 pub fn random_mapset(out: &mut Out, coll: &str, rng: &mut Rng, cfg: &RandCfg) {
